@@ -358,10 +358,15 @@ def do_ranges_cli(sc, wd, res):
     inp = os.path.join(wd, "in.fq")
     clih.write_text(inp, clih.fastq_text([("r", "ACGT", "IIII")]))
     js = os.path.join(wd, "r.json")
-    for seq in ("ACGTACGGTTGACCA", "ACGTNNNNNNACGTTGCA", "A" * 33, "ACGTACGGTTGACCAGGTTAACCGGTTAAC" + "N" * 10):
+    for seq in ("ACGTACGGTTGACCA", "ACGTNNNNNNACGTTGCA", "A" * 33, "ACGTACGGTTGACCAGGTTAACCGGTTAAC" + "N" * 10, "ACGTACG", "ACGNNTACG",
+                "ACGTACGGT", "ACGTACGGTTG", "ACGTACGGTTGAC"):
         eff = len(seq) - seq.count("N")
-        for rate in (0.1, 0.12, 0.2, 0.33, 0.07, 0.25):
-            r = clih.run_cli(["-e", repr(rate), "-a", f"x={seq}", "--json", js, "-o", os.path.join(wd, "o.fq"), inp])
+        # rates as typed, and absolute error counts (converted to the rate k / non-N bases: 1/7, 2/9, 3/11 ... do not terminate)
+        for given in (0.1, 0.12, 0.2, 0.33, 0.07, 0.25, 1, 2, 3):
+            rate = given if given < 1 else given / eff
+            if rate >= 1:
+                continue
+            r = clih.run_cli(["-e", repr(given), "-a", f"x={seq}", "--json", js, "-o", os.path.join(wd, "o.fq"), inp])
             res["runs"] += 1
             res["evals"] += 1
             if r.exit != 0:
